@@ -143,6 +143,25 @@ def chunk_ids(chunk, acc):
         acc.case(bid, nontrivial=True, outcome=str(keys[0])[:60])
         if keys[0] != keys[1]:
             acc.fail("C19/id/keys-not-stable-for-same-id", {"kind": "id", "beacon_id": bid}, str(keys[0])[:100], str(keys[1])[:100])
+    # one client object configured again and again (same configuration object, different ids, in both orders): after
+    # each run everything the client encrypts with belongs to the id of that run
+    for seq in ((1234, 4242), (4242, 1234), (2, 2, 4), (1234, -1, 4242), (6, 8, 6)):
+        acc.states += 1
+        with Seams():
+            cl = HttpBeaconClient()
+            for i, bid in enumerate(seq):
+                acc.transitions += 1
+                res = call(cl.run, cfg, dry_run=True, beacon_id=bid, user="u", computer="c", process="p", internal_ip="10.0.0.5", arch="x64")
+                if isinstance(res, str):
+                    continue  # a rejected id: the next run must still be consistent
+                d = hashlib.sha256(cl.aes_rand).digest()
+                fresh = HttpBeaconClient()
+                fresh.run(cfg, dry_run=True, beacon_id=bid, user="u", computer="c", process="p", internal_ip="10.0.0.5", arch="x64")
+                obs = (cl.beacon_id, cl.aes_rand, cl.aes_key, cl.hmac_key, cl.c2http.beacon_keys.aes_key, cl.c2http.beacon_keys.hmac_key, cl.metadata.bid, bytes(cl.metadata.aes_rand))
+                want = (fresh.beacon_id, fresh.aes_rand, d[:16], d[16:], d[:16], d[16:], fresh.beacon_id, fresh.aes_rand)
+                acc.case(("rerun", seq, i), nontrivial=True, outcome=cl.beacon_id)
+                if obs != want:
+                    acc.fail("C19/id/client-reused-for-another-id", {"kind": "id", "beacon_id": bid, "sequence": list(seq), "step": i}, [str(x.hex() if isinstance(x, bytes) else x) for x in want], [str(x.hex() if isinstance(x, bytes) else x) for x in obs])
     # session keys are a function of the id that is presented: every requested id that normalises to the same
     # presented id yields the same keys
     by_presented = {}
